@@ -158,6 +158,37 @@ def _job_histories(args):
     return out
 
 
+def boundary_genuine(rng: random.Random) -> list[tuple[str, bytes, int]]:
+    """Genuine messages (the captured lists re-encoded with other values): registers at the top of their range,
+    clocks whose twelve octets are all below 0x80, strings with blanks at the ends."""
+    import copy
+    from . import drv_cosem as C
+    out = []
+    for meter in ("aidon", "kaifa", "kamstrup"):
+        for name, m, _b in C.captured(meter):
+            if name.endswith(("_1", "NO_LIST_1")) and meter != "kaifa":
+                continue
+            for variant in ("max", "clock7", "blank"):
+                x = copy.deepcopy(m)
+                for e in x["elems"]:
+                    if variant == "max" and e["t"] == "u32":
+                        e["hi"], e["lo"] = 0xFFFF, 0xFFFF
+                    elif variant == "max" and e["t"] in ("u16", "i16"):
+                        e["lo"] = 0xFFFF
+                    elif variant == "clock7" and e["t"] == "dt":
+                        e["dt"] = {"y": 2100, "mo": 12, "d": 24, "dow": 1, "h": 23, "mi": 59, "s": 59, "hs": 50, "dev": 60, "st": 0}
+                    elif variant == "blank" and e["t"] in ("vstr", "ostr") and not (meter == "kamstrup" and e["obis"] == [1, 1, 96, 1, 1, 255]):
+                        e["s"] = e["s"][:-1] + [32]
+                if variant == "clock7" and x["apdu"]["kind"] != "null":
+                    x["apdu"]["dt"] = {"y": 2100, "mo": 12, "d": 24, "dow": 1, "h": 23, "mi": 59, "s": 59, "hs": 50, "dev": 60, "st": 0}
+                own = OWN[(meter, x["form"])]
+                try:
+                    out.append((f"gen:{variant}:{name}", C.encode(x), own))
+                except Exception:  # noqa: BLE001
+                    pass
+    return out
+
+
 def junk_pool(rng: random.Random, gen) -> list[tuple[str, bytes, int]]:
     out = [("junk:empty1", b"\x00", 0), ("junk:ascii", b"hello world", 0), ("junk:p1ish", b"1-0:1.8.0(5", 0), ("junk:p1ish2", b"1.0(5)xyz", 0),
            ("junk:p1ok", b"1-0:1.8.0(00001.5*kWh)\r\n", 4), ("junk:inf", b"1.8.0(inf*kW)", 0), ("junk:paren", b"a*(", 0),
@@ -352,8 +383,9 @@ def run_c12(chk: Check) -> int:
     rng = chk.rng
     gen = genuine_pool()
     junk = junk_pool(rng, gen)
-    pool = gen + junk
-    chk.cov["pool"] = {"genuine": len(gen), "junk": len(junk)}
+    bnd = boundary_genuine(rng)
+    pool = gen + junk + bnd
+    chk.cov["pool"] = {"genuine": len(gen), "junk": len(junk), "boundary_genuine": len(bnd)}
     hists = []
     small = gen[:: (2 if quick else 1)] + junk[:: (3 if quick else 1)]
     for a in small:                       # all histories of length 1 and 2 (3 in thorough over a reduced pool)
@@ -366,6 +398,11 @@ def run_c12(chk: Check) -> int:
             hists.append([a + (False,), b + (False,), c + (rng.random() < 0.3,)])
     for _ in range(150 if quick else 1500):
         hists.append([rng.choice(pool) + (rng.random() < 0.3,) for _ in range(rng.randint(3, 30))])
+    for g in bnd:                   # boundary-valued genuine messages: fresh decoder, and after a same-meter message
+        hists.append([g + (False,)])
+        same = [x for x in gen if x[2] == g[2]]
+        if same:
+            hists.append([rng.choice(same) + (False,), g + (False,)])
     # same-meter-same-form histories (the genuine-message clause)
     for name, b, own in gen:
         same = [g for g in gen if g[2] == own]
@@ -460,6 +497,16 @@ def run_c15(chk: Check) -> int:
     for s in (b"1-0:99.97.0(2)(0-0:96.7.19)(170520130938S)(0000005627*s)\r\n", b"1.8.0(inf*kW)", b"1.8.0(nan*kW)", b"1.8.0(1e999*kWh)", b"1.0(5", b"1.0(5)xyz", b"1.0(5)x)", b"a*(", b"(" * 500, b")" * 500,
               b"1.8.0(" + b"9" * 5000 + b"*kWh)", b"1.8.0(1)" * 800, b"a(" * 700, b"1.0.0(999999999999)", b"1.0.0(21)", b"0-0:1.0.0(2101061607)"):
         items.append(("crafted", s))
+    # minimal COSEM lists: every type tag as first / only element value, for every list grammar
+    ob = bytes([9, 6, 1, 1, 1, 7, 0, 255])
+    dt = bytes([9, 12, 7, 0xE6, 1, 1, 1, 0, 0, 0, 0xFF, 0x80, 0, 0])
+    for tag in (0, 1, 2, 3, 4, 5, 6, 9, 10, 12, 13, 15, 16, 17, 18, 22, 23, 255):
+        for val in (bytes([tag]), bytes([tag, 0]), bytes([tag, 1, 65]), bytes([tag, 0, 0, 0, 1]), bytes([tag, 2, 2, 15, 0, 22, 27])):
+            for body in (bytes([2, 1]) + val, bytes([2, 1]) + ob + val, bytes([2, 2]) + ob + val, bytes([2, 3, 10, 1, 65]) + ob + val,
+                         bytes([1, 1, 2, 2]) + ob + val, bytes([2, 1]) + dt + val, bytes([2, 2]) + ob + dt + val):
+                items.append(("crafted-cosem", body))
+                items.append(("crafted-cosem-frame", bytes([0xE6, 0xE7, 0, 0x0F, 0x40, 0, 0, 0, 0]) + body))
+                items.append(("crafted-cosem-frame-dt", bytes([0xE6, 0xE7, 0, 0x0F, 0x40, 0, 0, 0]) + dt + body))
     for n in (200, 800, 3200):   # length sweep for the step-count clause
         items.append((f"sweep{n}", (b"1-0:1.8.0(00001.000*kWh)\r\n" * (n // 26 + 1))[:n]))
         items.append((f"sweepbin{n}", gen[0][1] * (n // len(gen[0][1]) + 1)))
